@@ -7,6 +7,14 @@ CHECKS = {
     text="For every rollout length T in the bound (quick 1-8, thorough 1-16) the real compute_returns_and_advantages, traced to its jaxpr and executed over z3 reals with rewards, values, done flags, bootstrap value, gamma and lambda all symbolic, is shown (unsat) to satisfy the GAE recurrence and its closed form; corollaries (lambda=1 MC, lambda=0 TD, cut at done as 2-safety, per-environment independence under vmap, bootstrap taken from the post-rollout state over an uninterpreted env/policy) are separate obligations. Bounded symbolic verification, not a proof: T is bounded.",
     note="floats are reals (the property is stated over the reals); T bounded as stated; trusted: JAX tracer, the jaxpr interpreter (validated against JAX every run), z3",
     ref="DESIGN.md §2 C03"),
+ "C01": dict(
+    text="AbstractEnvLike.step/reset (inherited unchanged by every built-in environment and wrapper: IR/introspection fact) are traced on wrapper stacks (depth <=2 quick, <=3 thorough, 11 wrapper kinds, Discrete and Box actions) over an UNINTERPRETED base environment, so one unsat covers every MDP; one symbolic step from an arbitrary state covers every reachable state. Reward, flags, info, returned state (successor vs freshly drawn initial state with all wrapper counters 0, reset key a fresh split child) and observation-of-the-returned-state are compared with an independently written reference semantics.",
+    note="environment components are arbitrary total functions; distinct key terms are distinct keys; stack depth bounded; dyadic Box configuration; trusted: JAX tracer, interpreter (validated each run), z3",
+    ref="DESIGN.md §2 C01"),
+ "C13": dict(
+    text="Every functional component of every wrapper and wrapper pair is traced over an uninterpreted base environment and shown equal (unsat) to a reference in which only the declared change is applied (mapped action for transition, reward AND info; post-processed observation/reward; counter +1; truncate = inner or count>=N with N symbolic); advertised spaces, images of clip/rescale maps, rescale endpoints and monotonicity, unwrapped chains to depth 3, constructibility of all 11 wrappers, the TimeLimit exactness lemma, and the slot wiring of the Gymnax / Gymnasium adapters (io_callback as UF) are separate obligations.",
+    note="bounded: stack depth 2 for methods, 3 for unwrapped; rescale on bounded dyadic boxes; LeraxToGymEnv and real Gymnasium envs outside the claim",
+    ref="DESIGN.md §2 C13"),
 }
 NOT_YET = {}
 NA = {"C18": "file-system I/O and NumPy serialisation of concrete buffers: nothing symbolic to execute (eqx.tree_serialise_leaves crosses into numpy.save, CrossHair realises every input at that boundary); 'fails loudly' is an exception-path property of equinox. See DESIGN.md §2 C18."}
